@@ -4,7 +4,7 @@ PROPS = {}
 HOOK_COMMITS = ["4bf9c3e", "fb2c1fb"]
 NOT_APPLICABLE = {}
 # properties whose check exists but is being brought in line with repairs just made in /repo: not claimed until green
-PENDING = {"C16": "not yet claimed: the check exists (./check C16) but its Lean model is being updated to the six C16 repairs just committed in /repo"}
+PENDING = {}
 
 PROPS["C19"] = {
     "gen": ["gen_color_table.py"],
@@ -572,7 +572,7 @@ PROPS["C03"] = {
 }
 
 PROPS["C16"] = {
-    "gen": ["gen_rust_debug_table.py"],
+    "gen": [],
     "lean": ["QV.Props.C16"],
     "streams": ["c16"],
     "rule": "c16-compile (oracle): batches of generated documents (operator/builtin probes: every operator of docs/language.md x "
@@ -603,7 +603,7 @@ PROPS["C16"] = {
         "harness token scanner of the header; the generator's pretty-printer and its abstract description of each inventory "
         "document (which bindings are dynamic, observer counts, builtin uses, literals)",
         "QV.Model.RustDebugTable: which characters Rust's Debug prints as \\u{..}: 909 ranges measured on the installed "
-        "toolchain (regenerated by tools/gen_rust_debug_table.py on every run); literal_roundtrip_partial holds for ANY table",
+        "toolchain (static file, used only by the old-behaviour witnesses; tools/gen_rust_debug_table.py regenerates it by hand)",
         "QV.Spec.CxxLit written from [lex.string]/[lex.ccon]; out-of-range numeric escapes (implementation-defined) count as "
         "ill-formed and are not generated; validated against g++ by the spec-cxxlit cases",
     ],
@@ -614,22 +614,26 @@ PROPS["C16"] = {
         "statements inside function bodies are C01/C06's subject",
         "uigen accepts gadget maps only for the gadget classes it knows (QFont, QSizePolicy, ...): deeper nesting than "
         "property.member cannot be produced through the real pipeline and is covered by the theorem only",
-        "clauses refuted today: literal_roundtrip (F3b), ops_subset_cxx (F3a), builtin_calls_welltyped (F13); compile-only findings F16-F19",
+        "one clause is false of the code today: an enumerator whose enumeration has a QFlags alias is typed as the alias (F25, known "
+        "finding): headers binding an enum-typed property to such enumerators dynamically do not compile",
     ],
     "level_text": "proof (partial): issued_names_distinct / fn_names_distinct - over the whole sequence of generate calls of "
                   "UiSupportCode::build (all objects, gadget sub-bindings whose prefixes are built from generated names, callbacks) no "
                   "name is issued twice and the setup/update/eval/on member functions are pairwise distinct (corollary of C10's "
                   "generate_fresh); index_per_binding; guard_large_enough + guard_slots_distinct + guard_decl ((n+31)/32 words, "
                   "index>>5 inside, (word,bit) injective, no zero-length array); observer_arrays_large_enough; includes_cover; "
-                  "literal_roundtrip_partial - for ANY Unicode table, every string without \\u{..}-escaped characters and without "
-                  "NUL-before-octal-digit is read back by the C++17 literal reader as itself; the full statements literal_roundtrip, "
-                  "ops_subset_cxx, builtin_calls_welltyped are refuted by kernel-checked witnesses (F3b, F3a, F13). Compilability "
+                  "literal_roundtrip / literal_roundtrip_narrow - for EVERY string the spelling written by format_cxx_string_literal is read "
+                  "by the C++17 literal reader as exactly the UTF-16 units / UTF-8 bytes of the string (octal3_read: a 3-digit octal escape "
+                  "cannot absorb a following digit); ops_subset_cxx (arithmetic incl. std::fmod with its <cmath> use, comparison without "
+                  "pointer ordering, enum bitwise operators through the double cast, with and without Q_DECLARE_OPERATORS_FOR_FLAGS); "
+                  "builtin_calls_welltyped (std::max/min incl. the explicit <uint>) proved in full over small typing tables; the "
+                  "pre-repair behaviour is kept as ...Old definitions with kernel-checked witnesses (F3b, F3a, F13, F23, F24). Compilability "
                   "is checked by g++ on every accepted generated header.",
     "level_note": "trusted: Lean kernel; model tied by exact comparison of header inventories and literal spellings (quick: 1448 model "
                   "cases, 0 disagreements) and Spec.CxxLit tied to g++ (2400 spellings, 0 disagreements); compile oracle: quick tier "
-                  "about 1600 accepted documents in 60 translation units; findings on the unfixed code: F3a, F3b, F13 (expected) and "
-                  "F16 (inf literal), F17 (bitwise operators on enumerations), F18 (pointer < null), F19 (enumerator typed as its "
-                  "QFlags alias); fixes proposed in .work/C16.fix-1..7.diff, each passes the unedited suite",
+                  "about 1600 accepted documents in 60 translation units; F3a, F3b, F13, F22, F23, F24 repaired in /repo (0f767b2, 5f82544, bd13865, 61d18c3, "
+                  "17832f1, 5a4a210), witnesses replayed as regression cases from corpus/C16; F25 (enumerator typed as its QFlags alias) is a "
+                  "known finding, matched only when every g++ message of the failing batch is the QFlags->enumeration conversion error",
     "technique": "Lean 4 proof (freshness invariant threaded through the build loop, tag injectivity, shift/mask arithmetic, "
                  "state-machine literal reader round trip) + refutation witnesses + differential correspondence + compile-and-run "
                  "oracle with g++ against declarations generated from the same metatypes",
